@@ -208,29 +208,35 @@ class InotifyEmitter(EventEmitter):
         # Always listen to delete self
         event_mask = InotifyConstants.IN_DELETE_SELF
 
-        for cls in self._event_filter:
-            if cls in {DirMovedEvent, FileMovedEvent}:
-                event_mask |= InotifyConstants.IN_MOVE
-            elif cls in {DirCreatedEvent, FileCreatedEvent}:
-                event_mask |= InotifyConstants.IN_MOVE | InotifyConstants.IN_CREATE
-            elif cls is DirModifiedEvent:
-                event_mask |= (
-                    InotifyConstants.IN_MOVE
-                    | InotifyConstants.IN_ATTRIB
-                    | InotifyConstants.IN_MODIFY
-                    | InotifyConstants.IN_CREATE
-                    | InotifyConstants.IN_CLOSE_WRITE
-                )
-            elif cls is FileModifiedEvent:
-                event_mask |= InotifyConstants.IN_ATTRIB | InotifyConstants.IN_MODIFY
-            elif cls in {DirDeletedEvent, FileDeletedEvent}:
-                event_mask |= InotifyConstants.IN_DELETE
-            elif cls is FileClosedEvent:
-                event_mask |= InotifyConstants.IN_CLOSE_WRITE
-            elif cls is FileClosedNoWriteEvent:
-                event_mask |= InotifyConstants.IN_CLOSE_NOWRITE
-            elif cls is FileOpenedEvent:
-                event_mask |= InotifyConstants.IN_OPEN
+        if self.watch.is_recursive:
+            # Sub-directories that are created or moved in have to be noticed in order to be watched.
+            event_mask |= InotifyConstants.IN_MOVE | InotifyConstants.IN_CREATE
+
+        # The native events each kind of event is derived from.
+        masks: dict[type[FileSystemEvent], int] = {
+            DirMovedEvent: InotifyConstants.IN_MOVE,
+            FileMovedEvent: InotifyConstants.IN_MOVE,
+            DirCreatedEvent: InotifyConstants.IN_MOVE | InotifyConstants.IN_CREATE,
+            FileCreatedEvent: InotifyConstants.IN_MOVE | InotifyConstants.IN_CREATE,
+            DirDeletedEvent: InotifyConstants.IN_MOVE | InotifyConstants.IN_DELETE,
+            FileDeletedEvent: InotifyConstants.IN_MOVE | InotifyConstants.IN_DELETE,
+            DirModifiedEvent: (
+                InotifyConstants.IN_MOVE
+                | InotifyConstants.IN_ATTRIB
+                | InotifyConstants.IN_MODIFY
+                | InotifyConstants.IN_CREATE
+                | InotifyConstants.IN_DELETE
+                | InotifyConstants.IN_CLOSE_WRITE
+            ),
+            FileModifiedEvent: InotifyConstants.IN_ATTRIB | InotifyConstants.IN_MODIFY,
+            FileClosedEvent: InotifyConstants.IN_CLOSE_WRITE,
+            FileClosedNoWriteEvent: InotifyConstants.IN_CLOSE_NOWRITE,
+            FileOpenedEvent: InotifyConstants.IN_OPEN,
+        }
+        # A filter entry selects every kind of event that is an instance of it (base classes included).
+        for event_cls, mask in masks.items():
+            if any(issubclass(event_cls, cls) for cls in self._event_filter):
+                event_mask |= mask
 
         return event_mask
 
